@@ -62,7 +62,11 @@ def run(chk):
     os.environ.setdefault("VERIF_JUDGE_BUDGET", "2.0")
     os.environ["VERIF_C09_DIFF_REDUCES_Y"] = "1" if diff_reduces_subtrahend() else "0"
     chk.extra["source_fact_difference_reduces_subtrahend"] = diff_reduces_subtrahend()
-    common.coq_extract("Extract_pset.v", ["pset.ml", "pset.mli"], deps=COQ + ["Extract/Extract_pset.v"])
+    GRID_COQ = ["Grid/QVec.v", "Grid/IntLin.v", "Grid/GridSem.v", "Grid/GridRef.v", "Product/PRPArith.v", "Product/PRP.v", "Product/PRPJudge.v"]
+    ok, log = common.coq_make([f[:-2] + ".vo" for f in GRID_COQ])
+    if not ok:
+        chk.broken.append(("coq-build-grid-reference", log[-2000:]))
+    common.coq_extract("Extract_pset.v", ["pset.ml", "pset.mli"], deps=COQ + GRID_COQ + ["Extract/Extract_pset.v"])
     judge = common.ocaml_build("judge_pset", ["gen/pset.mli", "gen/pset.ml", "zutil_pset.ml", "judge_pset.ml"])
     exe = common.compile_harness("run_pset.cc")
 
@@ -89,6 +93,11 @@ def run(chk):
         # copy-on-write heavy
         lines += gen_pset.make_cases(chk.seed * 1000 + 3, n3, start=n1 + n2, maxdim=2, nobj=2, steps=4, pq=0.1, cow_p=1.0)
         # the paths taken when abandon_expensive_computations is raised
+        # slabs / boxes with unbounded sides, every disjunct order (pairwise_reduce's upper_bound_assign_if_exact)
+        # Pointset_Powerset<Grid>: geometric predicates / difference on covers without finite partitions, every disjunct order
+        lines += gen_pset.grid_cases(chk.seed * 1000 + 6, 60 if chk.quick else 1500, start=700000)
+        lines += gen_pset.boxpair_systematic(start=800000)
+        lines += gen_pset.boxpair_cases(chk.seed * 1000 + 5, 150 if chk.quick else 2500, start=900000)
         lines += gen_pset.hurry_cases(chk.seed * 1000 + 4, 60 if chk.quick else 1500, start=n1 + n2 + n3)
     cases = polyrun.split_cases(lines)
     work = os.path.join(common.BUILD, "work-C09-%d" % os.getpid())
@@ -105,6 +114,7 @@ def run(chk):
     chk.extra["cases_abandoned_after_3_timeouts"] = cov.get("case-abandoned-after-3-timeouts", 0)
     chk.extra["operation_histogram"] = {k[3:]: v for k, v in sorted(cov.items()) if k.startswith("op:")}
     chk.extra["query_histogram"] = {k[4:]: v for k, v in sorted(cov.items()) if k.startswith("qry:")}
+    chk.extra["grid_powerset_histogram"] = {k[5:]: v for k, v in sorted(cov.items()) if k.startswith("grid-")}
     chk.extra["cow_histogram"] = {k[3:]: v for k, v in sorted(cov.items()) if k.startswith("cw:")}
     chk.extra["constructor_histogram"] = {k[4:]: v for k, v in sorted(cov.items()) if k.startswith("new:")}
     chk.extra["unmodelled"] = {k[11:]: v for k, v in sorted(cov.items()) if k.startswith("unmodelled:")}
@@ -128,6 +138,10 @@ def run(chk):
             chk.undecided += 1
             continue
         sub = f.kind.split("/")[-1] if "/" in f.kind else f.kind
+        if "[approximate-partition-integer-residues]" in f.detail:
+            chk.failure({"site": "approximate_partition_aux", "kind": "integer-residues-only", "detail": f.detail},
+                        {"case": byid.get(f.case, []), "step": f.step, "line": f.line, "judge": f.detail, "replay_cmd": "./check C09 --replay <this file>"})
+            continue
         info = {"site": site_of(f.kind, f.line), "kind": sub, "model_agrees": "model agrees" in f.detail, "detail": f.detail}
         chk.failure(info, {"case": byid.get(f.case, []), "step": f.step, "line": f.line, "judge": f.detail,
                            "theorem": "C09 theorems on the generic model + the verified decision procedure named in the judge's message",
